@@ -228,6 +228,8 @@ def run(pid, tier, seed, t0):
         vec = dict(rec["v"], id=rec["id"], spx=rec["spx"], exp=rec["exp"], expAsBuilt=rec["expAsBuilt"])
         verdict.violation(key, _describe(rec, clauses) + " [%d records in this class]" % len(members),
                           {"seed": seed, "vector": vec, "record": rec, "clauses": clauses, "records_in_class": len(members)})
+    import x_tlsstream
+    tls_stage = x_tlsstream.stage(pid, tier, seed, verdict)      # TlsStream.tla: the C12 clauses (T2) on the real TLS streams
     code, unlisted = verdict.finish()
 
     # drift: real outcome differs from the intended model without falsifying a clause
@@ -247,6 +249,7 @@ def run(pid, tier, seed, t0):
                                                                "verified", "peerHs", "clientTls", "panicLoc")}}
                for i in sample_ids if 1 <= i <= len(recs)]
     coverage = {
+        "tls_stream_model": tls_stage,
         "states": m.distinct, "transitions": m.generated, "depth": m.depth,
         "traces_validated_against_impl": nrec,
         "samples": samples,
@@ -298,6 +301,13 @@ def run(pid, tier, seed, t0):
 
 def replay(pid, path):
     obj = json.load(open(path))
+    _k = obj.get("replay", obj).get("kind") if isinstance(obj.get("replay", obj), dict) else None
+    if _k == "tlsstream-ops":
+        import x_tlsstream
+        return x_tlsstream.replay(pid, obj)
+    if _k == "duplex-trace":
+        import x_duplex
+        return x_duplex.replay(pid, obj)
     rep = obj["replay"]
     d = vlib.outdir(pid)
     vpath = os.path.join(d, "replay-vector.json")
